@@ -14,7 +14,7 @@ func init() {
 	register(&propDef{
 		ID: "C14",
 		Meta: propMeta{
-			Explanation: "Decides the structural part of request isolation: (R14a) no package-level variable of the module is written from code reachable from a concurrent entry point (every route handler, every HTTP middleware closure, the worker's RPC handler and health loop, the server's health loop, the worker-token monitor) unless the write holds a mutex, runs inside a sync.Once.Do closure, or is in the reasoned table (initialisation before the goroutine that shares the variable exists) — so no signer or helper can keep request state in a package variable; (R14b) lock discipline for the frozen table of shared objects: every access to Cache.keys, signinit.ts, WorkerToken.procs, Closed.err, the health counters and the PKCS#11 provider map holds the mutex that guards it (constructors of a not-yet-shared object excepted); (R14c) the per-request objects are fresh allocations: audit.New, signinit.Init's SignOpts and Signer.FlagsFromQuery return newly allocated values that do not alias package state; (R14d) shutdown waits: Daemon.Close runs httpServer.Shutdown before Server.Close inside the errgroup whose Wait it returns, and Server.Close signals the health loop before closing tokens; (R14e) an object handed back to a sync.Pool is not used again by the function that returned it (zero instances today; positive control in testdata/ctl/pool); (R14f) for each of the module's go statements, the spawning function does not use a mutable object it handed to the goroutine (captured variable or argument of pointer, map, slice or interface type without its own synchronisation) before a join (receive on a channel the goroutine signals, WaitGroup/errgroup Wait); R14b distinguishes shared (RLock) from exclusive holds, a write needs the exclusive one.",
+			Explanation: "Decides the structural part of request isolation: (R14a) no package-level variable of the module is written from code reachable from a concurrent entry point (every route handler, every HTTP middleware closure, the worker's RPC handler and health loop, the server's health loop, the worker-token monitor) unless the write holds a mutex, runs inside a sync.Once.Do closure, or is in the reasoned table (initialisation before the goroutine that shares the variable exists) — so no signer or helper can keep request state in a package variable; (R14b) lock discipline for the frozen table of shared objects: every access to Cache.keys, signinit.ts, WorkerToken.procs, Closed.err, the health counters and the PKCS#11 provider map holds the mutex that guards it (constructors of a not-yet-shared object excepted); (R14c) the per-request objects are fresh allocations: audit.New, signinit.Init's SignOpts and Signer.FlagsFromQuery return newly allocated values that do not alias package state; (R14d) shutdown waits: Daemon.Close runs httpServer.Shutdown before Server.Close inside the errgroup whose Wait it returns, and Server.Close signals the health loop before closing tokens; (R14e) an object handed back to a sync.Pool is not used again by the function that returned it (zero instances today; positive control in testdata/ctl/pool); (R14f) for each of the module's go statements, the spawning function does not use a mutable object it handed to the goroutine (captured variable or argument of pointer, map, slice or interface type without its own synchronisation) before a join (receive on a channel the goroutine signals, WaitGroup/errgroup Wait); R14b distinguishes shared (RLock) from exclusive holds, a write needs the exclusive one. R14c also covers signinit.InitKey (the certificate bundle Init writes the per-request timestamper into) and follows module constructors recursively; R14d also requires that Server.Close has no caller besides Daemon.Close's drain step and constructor clean-up paths that hand out no server; R14e also requires that memory put into a pool is not returned uncopied elsewhere and that a method pooling an object held in its receiver clears the field.",
 			NotDecided:  "race freedom of heap objects in general (no points-to / may-happen-in-parallel analysis is available: x/tools v0.29.0 has no go/pointer), deadlock freedom, response mix-ups inside net/http. The atomic/plain mix in internal/closeonce is only noted: its sole lock-free reader cannot overlap the writer (WorkerToken.Close waits for spawners first), so arming it would be a false alarm.",
 			Assumptions: []string{"prometheus collectors, zerolog and rate.Limiter are internally synchronised", "sync.Once.Do runs its function once with a happens-before edge to every return of Do"},
 		},
@@ -217,6 +217,10 @@ func runC14(c *Ctx) {
 		c.Check(f.OK, "R14e", f.Key, f.Pos, "the pooled memory is not handed out elsewhere", f.Detail)
 	}
 	c.runControl("R14e pooled memory also returned", "hasher).release", poolEscapes)
+	for _, f := range poolDoublePut(p) {
+		c.Check(f.OK, "R14e", f.Key, f.Pos, "the field is cleared", f.Detail)
+	}
+	c.runControl("R14e pooled object kept in the receiver", "twice.w).Close", poolDoublePut)
 	sites, shares := goroutineShares(p)
 	badGo := map[*ssa.Go][]goShare{}
 	for _, s := range shares {
@@ -250,7 +254,7 @@ func runC14(c *Ctx) {
 	c.runControl("R14f goroutine hand-over", "goshare.Bad", goShareFindings)
 
 	// ---- R14c
-	for _, spec := range []string{"lib/audit.New", "signers.(*Signer).FlagsFromQuery", "internal/signinit.Init"} {
+	for _, spec := range []string{"lib/audit.New", "signers.(*Signer).FlagsFromQuery", "internal/signinit.Init", "internal/signinit.InitKey"} {
 		fn := p.Func(spec)
 		if fn == nil {
 			c.Undecided("R14c", spec, "-", "function not found")
@@ -270,8 +274,11 @@ func runC14(c *Ctx) {
 					case *ssa.Alloc:
 						// fresh
 					case *ssa.Extract, *ssa.Call:
-						// result of a constructor call (checked where it is defined)
+						// result of a constructor call: a module function must itself return fresh objects
 						_ = x
+						if !p.returnsFresh(lf.V, 0) {
+							ok = false
+						}
 					default:
 						if isNilConst(lf.V) {
 							continue
@@ -314,6 +321,37 @@ func runC14(c *Ctx) {
 			}
 		}
 		c.Check(body != nil && waits && okOrder, "R14d", "(*server/daemon.Daemon).Close drains before closing tokens", p.Pos(fn.Pos()), "Shutdown precedes Server.Close inside the errgroup; Close returns eg.Wait()", fmt.Sprintf("shutdown does not wait for in-flight requests before closing tokens (in errgroup:%v waits:%v shutdown-before-close:%v)", body != nil, waits, okOrder))
+	}
+	// Server.Close (which closes the tokens) has exactly one caller: the drain closure of Daemon.Close
+	{
+		var callers []string
+		okCallers := true
+		for _, f := range p.Funcs {
+			for _, ci := range p.callsIn(f, "(*server.Server).Close") {
+				outer := p.FName(p.Outer(f))
+				callers = append(callers, p.FName(f))
+				switch {
+				case outer == "(*server/daemon.Daemon).Close":
+					// the drain step (order checked above)
+				case strings.HasPrefix(outer, "cmdline/"):
+					// one-shot commands that never served a request
+				case f == p.Outer(f) && len(p.successReturns(f)) > 0:
+					// clean-up in a constructor on a path that hands out no server: every return
+					// reachable afterwards returns a nil first result (failure, or the config test mode)
+					for _, r := range returnsOf(f) {
+						if reachableAfter(f, ci, r, nil, nil) && len(r.Results) > 0 && !isNilConst(retVal(r, 0)) {
+							okCallers = false
+						}
+					}
+				default:
+					okCallers = false
+				}
+			}
+		}
+		if len(callers) == 0 {
+			okCallers = false
+		}
+		c.Check(okCallers, "R14d", "(*server.Server).Close is called only from Daemon.Close", "-", fmt.Sprint(callers), fmt.Sprintf("Server.Close (which closes the tokens) is also called from %v: a caller other than Daemon.Close's drain step (for instance an http.Server shutdown hook, which runs when shutdown BEGINS) closes tokens under in-flight requests", callers))
 	}
 	if fn := p.Func("server/daemon.(*Daemon).Serve"); fn != nil {
 		// Serve treats ErrServerClosed as a clean exit and waits for the group
@@ -410,4 +448,44 @@ func dependsOnGlobalAddr(v ssa.Value) bool {
 		return ok
 	}
 	return false
+}
+
+// returnsFresh: v is the result of a call; if the callee is a module function, each pointer it
+// returns at that position must be a new allocation (or, recursively, the fresh result of
+// another call). A value read from a map, a global or a field is not fresh.
+func (p *Prog) returnsFresh(v ssa.Value, depth int) bool {
+	if depth > 3 {
+		return true
+	}
+	call, idx := resultOf(v)
+	if call == nil {
+		return true
+	}
+	g := call.Common().StaticCallee()
+	if g == nil || g.Blocks == nil || !p.InModule(pkgOf(g)) {
+		return true
+	}
+	if idx < 0 {
+		idx = 0
+	}
+	for _, r := range returnsOf(g) {
+		if idx >= len(r.Results) {
+			continue
+		}
+		for _, lf := range phiLeaves(retVal(r, idx), nil, map[*ssa.Phi]bool{}) {
+			switch x := stripConv(lf.V).(type) {
+			case *ssa.Alloc:
+			case *ssa.Const:
+			case *ssa.Extract, *ssa.Call:
+				if !p.returnsFresh(x.(ssa.Value), depth+1) {
+					return false
+				}
+			case *ssa.Parameter:
+				// handing a parameter back is the caller's business
+			default:
+				return false
+			}
+		}
+	}
+	return true
 }
